@@ -125,7 +125,10 @@ Definition rstep (s : rstate) (o : op) : rstate * result :=
       match r_get_nodes_by_pod s p [] true with
       | inr e => (s, RErr e)
       | inl (_ :: _) => (s, RErr EPodHasNodes)
-      | inl [] => (r_del s (KPod p), ROk PUnit)          (* the DEL count is not inspected *)
+      | inl [] =>
+          let deleted := if mem (r_kv s) (KPod p) then 1 else 0 in          (* DEL count *)
+          if negb (deleted =? 1) then (r_del s (KPod p), RErr EPodNotFound)
+          else (r_del s (KPod p), ROk PUnit)
       end
   | OGetPod p =>
       match r_get_one s (KPod p) with
